@@ -43,7 +43,7 @@ typedef struct a_hpf
 #if defined(__cplusplus)
     A_INLINE void gen(a_real fc, a_real ts)
     {
-        alpha = 1 / (A_REAL_TAU * fc * ts + 1);
+        alpha = 1 / (A_REAL_TAU * (fc * ts) + 1);
     }
     A_INLINE a_real operator()(a_real x)
     {
@@ -67,7 +67,7 @@ typedef struct a_hpf hpf;
 #define A_HPF_1(alpha) {a_real_c(alpha), 0, 0}
 #define A_HPF_2(fc, ts) {A_HPF_GEN(fc, ts), 0, 0}
 /* clang-format on */
-#define A_HPF_GEN(fc, ts) (1 / (A_REAL_TAU * a_real_c(fc) * a_real_c(ts) + 1))
+#define A_HPF_GEN(fc, ts) (1 / (A_REAL_TAU * (a_real_c(fc) * a_real_c(ts)) + 1))
 
 /*!
  @brief generate for High Pass Filter
@@ -84,7 +84,7 @@ typedef struct a_hpf hpf;
 */
 A_INTERN a_real a_hpf_gen(a_real fc, a_real ts)
 {
-    return 1 / (A_REAL_TAU * fc * ts + 1);
+    return 1 / (A_REAL_TAU * (fc * ts) + 1);
 }
 
 /*!
